@@ -543,6 +543,8 @@ fn apply(rt: &Runtime, w: &mut World, ev: &mut Ev, out: &mut Vec<u64>) -> StepOb
     for (c, n) in oe {
         out.extend([c as u64, n as u64]);
     }
+    // C06 (wrapped stream of c06x.rs): the calls made on ConnectionLimits during this step
+    c06x::post_step(out);
     StepObs { calls, stuck: stuck != 0, ret }
 }
 
@@ -1057,9 +1059,12 @@ pub fn main(args: &Args) {
         stored = read_cases(Path::new(d));
     }
     let tcp_stream = tcp::Tcp::new(&rt); // TCP transport stream (cases tagged 9000): c05_tcp.rs
+    let c06 = c06x::Streams::new(cfg!(feature = "quic") && args.u64("sock-quic", 0) == 1); // C06 extension streams (cases tagged 9600..9604): c06x.rs
     for c in &stored {
         let (c2, t) = catch_unwind(AssertUnwindSafe(|| {
-            if tcp::Tcp::is_tcp_case(c) {
+            if c06x::is_tagged(c) {
+                c06.run_stored(&rt, c)
+            } else if tcp::Tcp::is_tcp_case(c) {
                 (c.clone(), tcp_stream.run_stored(&rt, c))
             } else {
                 run_stored(&rt, c)
@@ -1072,12 +1077,23 @@ pub fn main(args: &Args) {
         return;
     }
     let mut rng = Rng::new(seed ^ if focus_limits { 0x6006 } else { 0x5005 });
+    if focus_limits {
+        // C06: the exhaustive tables (ConnectionLimits script per configuration, PeerState shape x event)
+        for (c, t) in c06.tables() {
+            out.emit(&c, &t);
+        }
+    }
     let only = args.str("only-transport").and_then(|s| s.parse().ok()).and_then(tcp::Tk::of_tag); // e.g. 9002: QUIC cases only
     for i in 0..ncases {
         let mut r = rng.fork();
-        let (c, t) = match tcp::stream_of(i, thorough, only).filter(|_| !focus_limits) {
-            Some(k) => tcp_stream.run_generated(&rt, k, &mut r, thorough),
-            None => run_generated(&rt, &mut r, thorough, focus_limits),
+        let (c, t) = if focus_limits {
+            catch_unwind(AssertUnwindSafe(|| c06.generated(&rt, &mut r, thorough, i)))
+                .unwrap_or((vec![c06x::TAG_WRAPPED, 0], vec![PANIC_MARK]))
+        } else {
+            match tcp::stream_of(i, thorough, only) {
+                Some(k) => tcp_stream.run_generated(&rt, k, &mut r, thorough),
+                None => run_generated(&rt, &mut r, thorough, focus_limits),
+            }
         };
         out.emit(&c, &t);
     }
@@ -1085,3 +1101,6 @@ pub fn main(args: &Args) {
 
 #[path = "c05_tcp.rs"]
 mod tcp;
+
+#[path = "c06x.rs"]
+mod c06x;
